@@ -103,8 +103,14 @@ def stepC04 (_ : Unit) (j : Json) : Except String (Unit × Json) := do
     let cfg ← asCfg (← fld j "cfg")
     let calls ← getList asCall j "calls"
     if !(calls.all (Call.wf cfg)) then throw "ill-formed stream"
+    -- `set_env(env)` (force_reset) in front of a call: `self._last_obs = None`, i.e. the model state forgets that it was
+    -- started, so `setupLearn` takes its "no last observation yet" branch (environment reset) whatever `reset` says
+    let setEnvs ← getList (fun cj => pure ((getBool cj "set_env").toOption.getD false)) j "calls"
     -- the same fold as `run`, keeping what each call left unconsumed
-    let (s, infos) := calls.foldl (fun (acc : Sys Rat × List Json) c =>
+    let (s, infos) := (calls.zip setEnvs).foldl (fun (acc : Sys Rat × List Json) cs =>
+      let c := cs.1
+      let s0 : Sys Rat := if cs.2 then { acc.1 with st := { acc.1.st with started := false } } else acc.1
+      let acc := (s0, acc.2)
       let r := runCall cfg acc.1 c
       let total := (setupLearn cfg acc.1 c).2
       (r.1, acc.2 ++ [objJ [("leftover", natJ r.2.length),
